@@ -267,6 +267,10 @@ def r3_limits(ctx, F):
 
 def run(ctx):
     F = ctx.facts("core")
+    # "after any of these errors the evaluator is reusable": the thread-local depth counter is given back on the error
+    # path too (shared with C07.R2 guard balance)
+    from rules.C07 import r2b_guard_balance
+    r2b_guard_balance(ctx, F, rule="C15.R4")
     r1_frames(ctx, F)
     # a leaked or double-popped frame corrupts the depth accounting: the pairing clauses of C07.R1 are part of
     # "every frame is counted"
